@@ -3,7 +3,8 @@ memory word to the state the simulation started from - for traces of all three s
 import io
 
 
-def testbench(design, simname='Simulation', seed=0, nsteps=3, add_reset=True):
+def testbench(design, simname='Simulation', seed=0, nsteps=3, add_reset=True, init_mode=1,
+              default_value=0):
     import random
     import pyrtl
     from fam import designs, simcheck, vlogcheck
@@ -12,10 +13,12 @@ def testbench(design, simname='Simulation', seed=0, nsteps=3, add_reset=True):
     block = designs.build(design)
     nm = vlogcheck.name_map(block)
     steps = simcheck.stimuli(block, seed, nsteps)
-    regmap, memmap = simcheck.init_state(block, seed, 1)
+    regmap, memmap = simcheck.init_state(block, seed, init_mode)
     tracer = pyrtl.SimulationTrace(block=block)
+    kw = dict(default_value=default_value) if default_value else {}
     sim = getattr(pyrtl, simname)(tracer=tracer, register_value_map=dict(regmap),
-                                  memory_value_map={m: dict(d) for m, d in memmap.items()}, block=block)
+                                  memory_value_map={m: dict(d) for m, d in memmap.items()}, block=block,
+                                  **kw)
     for s in steps:
         sim.step(dict(s))
     f = io.StringIO()
@@ -27,7 +30,7 @@ def testbench(design, simname='Simulation', seed=0, nsteps=3, add_reset=True):
     for r in block.wirevector_subset(pyrtl.Register):
         exp = regmap.get(r, r.reset_value)
         if exp is None:
-            exp = 0
+            exp = default_value
         got = tb['regs'].get(nm[r.name])
         if got != exp:
             probs.append('register %s initialised to %r, simulation started from %d' % (r.name, got, exp))
@@ -50,8 +53,18 @@ def testbench(design, simname='Simulation', seed=0, nsteps=3, add_reset=True):
                 if got is not None and got != exp:
                     probs.append('testbench overwrites ROM %s[%d] with %r (romdata %d)' % (mo.name, a, got, exp))
                     break
+            elif simname == 'CompiledSimulation' and default_value:
+                # sanctioned difference: CompiledSimulation does not apply a non-zero default_value to
+                # memories, while the trace carries a single default_value; unlisted words are skipped
+                if a not in memmap.get(mo, {}):
+                    continue
+                exp = memmap[mo][a]
+                got = None if ent is None else ent['words'].get(a, ent['default'])
+                if got != exp:
+                    probs.append('memory %s[%d] initialised to %r, simulation started from %d' % (mo.name, a, got, exp))
+                    break
             else:
-                exp = memmap.get(mo, {}).get(a, 0)
+                exp = memmap.get(mo, {}).get(a, default_value)
                 got = None if ent is None else ent['words'].get(a, ent['default'])
                 if got != exp:
                     probs.append('memory %s[%d] initialised to %r, simulation started from %d' % (mo.name, a, got, exp))
